@@ -423,8 +423,22 @@ class Rig(object):
 
         def err(reply, orig):
             fired("error", re, reply, orig)
+        fire_and_forget = len(self.requests) % 2 == 1
         self.requests[rid] = ("app", kind, ent)
-        self.app._sendIq(ent, ok if hs else None, err if he else None)
+        if fire_and_forget:
+            # every other request hands over bound methods of a helper object nothing else refers to (the usual
+            # fire-and-forget request object): the outstanding request is what keeps its callbacks alive
+            class _Req(object):
+                def on_ok(self, reply, orig):
+                    ok(reply, orig)
+
+                def on_err(self, reply, orig):
+                    err(reply, orig)
+            h = _Req()
+            self.app._sendIq(ent, h.on_ok if hs else None, h.on_err if he else None)
+            del h                       # (reference counting frees it at once if nothing else holds it)
+        else:
+            self.app._sendIq(ent, ok if hs else None, err if he else None)
         return rid
 
     def _on_bottom_send(self, node):
